@@ -226,6 +226,18 @@ func Run[C any](col *Collector, sub string, c C, check func(C) error, known Matc
 	if err == nil {
 		return nil
 	}
+	// a CLI invocation killed by the per-invocation watchdog (cli.Result.Code == -1) says the machine was too busy (or the
+	// command hangs): that is "inconclusive" (the driver exits 2 on HARNESS-ERROR), never a violation of the property
+	if strings.Contains(err.Error(), "exit=-1\n") {
+		col.Reject("inconclusive: a CLI invocation was killed by the watchdog")
+		col.mu.Lock()
+		if !col.printed["\x00watchdog"] {
+			col.printed["\x00watchdog"] = true
+			fmt.Printf("HARNESS-ERROR property=%s sub=%s: a CLI invocation was killed by the watchdog (machine too busy?): %s\n", col.ID, sub, strings.SplitN(err.Error(), "\n", 2)[0])
+		}
+		col.mu.Unlock()
+		return nil
+	}
 	for _, k := range col.known {
 		p, ok := known[k.Predicate]
 		if !ok {
